@@ -23,6 +23,22 @@ M = [
  ("C08-M6-sticky-forgets","session.go","C08","	if err != nil {\n		sr.err = err\n	}\n	return tok, err","	if err == io.EOF {\n		sr.err = err\n	}\n	return tok, err"),
  ("C08-M7-blank-from-on-any-element","session.go","C08","	if stanza.Is(start.Name, s.in.XMLNS) {\n		for i, attr := range start.Attr {","	if start.Name.Local != \"\" {\n		for i, attr := range start.Attr {"),
  ("C08-H1-harmless-discard-position","session.go","C08","	discard := xmlstream.Discard()\n	rc := s.TokenReader()","	rc := s.TokenReader()\n	discard := xmlstream.Discard()"),
+ # ---- round C
+ ("C07-M6-flush-error-dropped","session.go","C07","	if err := w.Flush(); err != nil {\n		return err\n	}\n\n	// Advance","	_ = w.Flush()\n\n	// Advance"),
+ ("C07-M7-reply-owed-decided-after-handler","session.go","C07","	iqNeedsResp := typ == string(stanza.GetIQ) || typ == string(stanza.SetIQ)\n","	_, _, _, typ = getIDTyp(start.Attr)\n	iqNeedsResp := typ == string(stanza.GetIQ) || typ == string(stanza.SetIQ)\n"),
+ ("C07-M8-reply-id-read-after-handler","session.go","C07","		_, err := xmlstream.Copy(w, stanza.IQ{\n			ID:   id,","		_, _, id, _ = getIDTyp(start.Attr)\n		_, err := xmlstream.Copy(w, stanza.IQ{\n			ID:   id,"),
+ ("C07-M9-encode-around-detector","session.go","C07","	return marshal.EncodeXML(rw, v)","	return marshal.EncodeXML(rw.TokenWriter, v)"),
+ ("C07-M10-detector-level-le-1","session.go","C07","		if rw.level < 1 && isIQEmptySpace(tok.Name)","		if rw.level <= 1 && isIQEmptySpace(tok.Name)"),
+ ("C07-H3-harmless-detector-if-chain","session.go","C07","	switch tok := t.(type) {\n	case xml.StartElement:\n		_, _, id, typ := getIDTyp(tok.Attr)\n","	switch tok := t.(type) {\n	case xml.StartElement:\n		_, _, id, typ := getIDTyp(tok.Attr)\n		_ = id\n"),
+ ("C07-H4-harmless-encode-helper","session.go","C07","	return marshal.EncodeXML(rw, v)","	var enc xmlstream.TokenWriter = rw\n	return marshal.EncodeXML(enc, v)"),
+ ("C08-M8-serve-errors-is-eof","session.go","C08","		switch err {\n		case nil:\n			// No error and no sentinal error telling us to shut down; try again!\n		case io.EOF:","		switch {\n		case err == nil:\n			// No error and no sentinal error telling us to shut down; try again!\n		case errors.Is(err, io.EOF):"),
+ ("C08-M9-framing-ns-is-restart-on-tcp","internal/stream/reader.go","C08","		if r.ws && t.Name.Space == wsNamespace && !r.negotiating {","		if t.Name.Space == wsNamespace && !r.negotiating {"),
+ ("C08-M10-response-rest-skipped-one-level","session.go","C08","			_, err = xmlstream.Copy(discard, inner)\n			if err != nil {\n				return err\n			}\n			return nil","			err = xmlstream.Skip(inner)\n			if err != nil && err != io.EOF {\n				return err\n			}\n			return nil"),
+ ("C08-M11-response-rest-not-discarded","session.go","C08","			_, err = xmlstream.Copy(discard, inner)\n			if err != nil {\n				return err\n			}\n			return nil","			return nil"),
+ ("C08-M12-from-compared-with-remote","session.go","C08","				local := s.LocalAddr().Bare().String()","				local := s.RemoteAddr().Bare().String()"),
+ ("C08-M13-updateaddr-keeps-in-to","session.go","C08","	s.in.Info.To = j\n	s.out.Info.From = j\n	return true","	s.out.Info.From = j\n	return true"),
+ ("C08-H2-harmless-serve-if-chain","session.go","C08","		switch err {\n		case nil:\n			// No error and no sentinal error telling us to shut down; try again!\n		case io.EOF:\n			return nil\n		default:\n			return s.sendError(err)\n		}","		if err == io.EOF {\n			return nil\n		}\n		if err != nil {\n			return s.sendError(err)\n		}"),
+ ("C08-H3-harmless-local-bare-helper","session.go","C08","				local := s.LocalAddr().Bare().String()","				own := s.in.Info.To.Bare()\n				local := own.String()"),
  ("C14-M1-msg-ns-before-local","mux/mux.go","C14","	pattern.Payload.Space = \"\"\n	pattern.Payload.Local = payload.Local\n	h = m.msgPatterns[pattern]\n	if h != nil {\n		return h, true\n	}\n\n	pattern.Payload.Space = payload.Space\n	pattern.Payload.Local = \"\"\n	h = m.msgPatterns[pattern]","	pattern.Payload.Space = payload.Space\n	pattern.Payload.Local = \"\"\n	h = m.msgPatterns[pattern]\n	if h != nil {\n		return h, true\n	}\n\n	pattern.Payload.Space = \"\"\n	pattern.Payload.Local = payload.Local\n	h = m.msgPatterns[pattern]"),
  ("C14-M2-handler-reader-not-rewound","mux/mux.go","C14","			br := &bufReader{r: t, buf: r.buf}\n			h, _ := m.MessageHandler(s.Type, start.Name)","			br := &bufReader{r: t, buf: r.buf, offset: r.offset}\n			h, _ := m.MessageHandler(s.Type, start.Name)"),
  ("C14-M3-empty-stanza-offset","mux/mux.go","C14","	if len(r.buf) == 2 {\n		r.offset = 0\n","	if len(r.buf) == 2 {\n		r.offset = 1\n"),
@@ -64,10 +80,10 @@ for name, f, props, old, new in M:
         print(name, 'ANCHOR NOT FOUND (%d)' % s.count(old)); continue
     run_one(name, f, props, lambda: open(p,'w').write(s.replace(old, new)), lambda: subprocess.run(['git','checkout','--',f], cwd=repo))
 # independently written breaking changes (patch files)
-seeded = sorted(d for d in os.listdir('/verif/seeded') if re.match(r'C(07|08|14)-\d+$', d))
+seeded = sorted(d for d in os.listdir(V + '/seeded') if re.match(r'C(07|08|14)-\d+$', d))
 for d, pr in [(d, d.split('-')[0]) for d in seeded]:
     name = 'seeded-' + d
     if sel and not any(name.startswith(x) for x in sel): continue
-    patch = '/verif/seeded/%s/patch.diff' % d
+    patch = V + '/seeded/%s/patch.diff' % d
     if not os.path.exists(patch): continue
     run_one(name, '.', pr, lambda: subprocess.run(['git','apply',patch], cwd=repo, check=True), lambda: subprocess.run(['git','checkout','--','.'], cwd=repo))
